@@ -3,7 +3,7 @@
 ENTRY = {'coq_dir': 'C13',
  'harness': 'c13',
  'cases': {'quick': 20000, 'thorough': 120000},
- 'consts': ['REQUEST_TIMEOUT_SECS'],
+ 'consts': ['REQUEST_TIMEOUT_SECS', 'DEFAULT_CHANNEL_SIZE', 'C13_SELECT_ARMS', 'C13_ERROR_VARIANTS'],
  'nontrivial_min_trace': 40,
  'rule': 'seeded random histories (3-50 stimuli quick, 5-120 thorough) over <=4 peers; 45% dialogue-shaped (the generator tracks a rough estimate of '
          'connections, open commands, carriers and waiting inbound requests so that most stimuli hit), the rest in five random styles (one with a '
